@@ -76,6 +76,7 @@ def harnesses():
             out.append(H("c20_nt_lcm_none_panics_%d" % b, "C20", "c20::nt_lcm_none_panics::<%d,%d>" % (b, l), unwind=un, tier=tier,
                          inst=inst, stubs=FWD, abstract=True, timeout=900, free_bits=2 * b, kind="never_returns",
                          domain="FULL pairs on which the (stubbed) inherent lcm is None", fns=["Integer::lcm"]))
+    # (zeroize: the crate's volatile write ends in inline assembly, which Kani does not support - c20::zeroize_facade is not registered)
     for b in [8, 64, 72, 128, 256]:
         l, nb = nlimbs(b), nbytes(b)
         out.append(H("c20_nt_swap_bytes_%d" % b, "C20", "c20::nt_swap_bytes::<%d,%d,%d>" % (b, l, nb), unwind=max(nb, 8 * l) + 3,
